@@ -115,9 +115,9 @@ def main():
         raise vlib.InfraError("the parser rejected most text cases: concretisation is broken")
     if s["generator_drift"] > 0:
         raise vlib.InfraError("the model's Generate disagrees with the real generator on %d templates (literal count / expression list)" % s["generator_drift"])
-    if s["no_rebuild_checked"] + s["rebuild_requested"] + s["premise_failed"] != s["edges_replayed"]:
+    if s["no_rebuild_checked"] + s["rebuild_requested"] + s["premise_failed"] + s["skipped_not_generated"] != s["edges_replayed"]:
         raise vlib.InfraError("transition accounting does not add up: %s" % s)
-    if s["no_rebuild_checked"] < 50:
+    if s["no_rebuild_checked"] < 50 and not s["accepted_not_generated"]:
         raise vlib.InfraError("only %d no-rebuild transitions were compared" % s["no_rebuild_checked"])
     for k in ("edges_emitted", "edges_selected", "selected_pools", "edges_replayed", "templates", "text_cases", "text_cases_rejected_by_parser",
               "dev_equals_normal_checked", "verbatim_checked", "accepted_not_generated", "packages", "build_seconds", "rounds", "no_rebuild_checked", "rebuild_requested",
